@@ -19,7 +19,9 @@ EXPLANATION = (
     "agree per physical type and the typed types never fall to the byte comparator; comparator bodies "
     "order by the value of their own width/type (floating comparators compare floating operands); "
     "(4) floating min/max updates are NaN-guarded and every memcpy into the fixed min/max arrays is "
-    "bounded; (5) null_count is accumulated as num_values - num_non_null. Decides these clauses, not "
+    "bounded; (5) null_count is accumulated as num_values - num_non_null; (6) on the whole path builder -> "
+    "Thrift struct -> reader view -> page index -> predicate, every store into a min_* (max_*) member or "
+    "local reads only min (max) sources and every (pointer, size) argument pair names one bound. Decides these clauses, not "
     "that written min/max bound the data for every input.")
 
 RS = "src/reader/statistics.c"
@@ -80,6 +82,13 @@ def run(ctx):
     ctx.clause("C16.3 comparator tables agree per type; comparators order by their own type")
     ctx.clause("C16.4 floating min/max NaN-guarded; memcpy into min/max storage bounded")
     ctx.clause("C16.5 null count accumulation")
+    ctx.clause("C16.6 min/max polarity: a max slot is fed from max sources only, (pointer,size) pairs name one bound")
+    from ..rules import polarity
+    npol = polarity.check(ctx, P.funcs_in(
+        "src/reader/statistics.c", "src/metadata/statistics.c", "src/metadata/page_index.c",
+        "src/thrift/parquet_types.c", "src/writer/page_writer.c", "src/writer/column_writer.c",
+        "src/writer/file_writer.c", "src/writer/row_group_writer.c", "src/reader/file_reader.c"))
+    ctx.floor("C16 min/max stores and argument pairs", npol, 80)
     f = P.fn("carquet_reader_row_group_matches", RS)
     decl = {}
     for n in f.body.walk():
